@@ -1442,23 +1442,31 @@ def jno(info, a, b):
     e.append(ExprAff(eip, ExprCond(of, a, b)))
     return e
 
+def loop_counter(info):
+    # jecxz / loop* count in cx when the address size is 16 bits (67 prefix)
+    if info.admode == x86_afs.u16:
+        return ecx[:16]
+    return ecx
+
 def jecxz(info, a, b):
     e= []
-    e.append(ExprAff(eip, ExprCond(ecx, a, b)))
+    e.append(ExprAff(eip, ExprCond(loop_counter(info), a, b)))
     return e
 
 
 def loop(info, a, b):
     e= []
-    c = ExprOp('-', ecx, ExprInt32(1))
-    e.append(ExprAff(ecx, c))
+    myecx = loop_counter(info)
+    c = ExprOp('-', myecx, ExprInt_from(myecx, 1))
+    e.append(ExprAff(myecx, c))
     e.append(ExprAff(eip, ExprCond(c, b, a)))
     return e
 
 def loopne(info, a, b):
     e= []
-    c = ExprOp('-', ecx, ExprInt32(1))
-    e.append(ExprAff(ecx, c))
+    myecx = loop_counter(info)
+    c = ExprOp('-', myecx, ExprInt_from(myecx, 1))
+    e.append(ExprAff(myecx, c))
 
     cond = ExprOp('|',
                   ExprCond(c, ExprInt_from(c, 0), ExprInt_from(c, 1)),
@@ -1470,8 +1478,9 @@ def loopne(info, a, b):
 
 def loope(info, a, b):
     e= []
-    c = ExprOp('-', ecx, ExprInt32(1))
-    e.append(ExprAff(ecx, c))
+    myecx = loop_counter(info)
+    c = ExprOp('-', myecx, ExprInt_from(myecx, 1))
+    e.append(ExprAff(myecx, c))
 
     cond = ExprOp('|',
                   ExprCond(c, ExprInt_from(c, 0), ExprInt_from(c, 1)),
